@@ -171,6 +171,8 @@ def classify(callee, crate="ta", local_traits=()):
         # crate trait method on a generic parameter (the user's bar type)
         st = callee.get("self_ty") or {}
         if st.get("k") == "param":
+            if callee.get("not_getter"):
+                return ("unknown", "crate trait method %s called on the type parameter %s: not one of the price getters, its effects are unknown" % (callee["path"], st.get("name")))
             return ("user", "%s on %s" % (callee["path"], st.get("name")))
         if st.get("k") == "adt" and st.get("krate") == crate:
             # a crate trait method on a crate type, generic in the trait's arguments (`TrueRange: Next<I>`): one of this crate's own
